@@ -27,3 +27,14 @@ func (m *AuthgrantMapSync) VerifDump() string {
 	sort.Strings(out)
 	return strings.Join(out, ";")
 }
+
+// VerifNames lists the command texts of the grants stored for user/key.
+func (m *AuthgrantMapSync) VerifNames(user string, key [32]byte) []string {
+	m.agLock.Lock()
+	defer m.agLock.Unlock()
+	var out []string
+	for _, a := range m.agMap[user][key] {
+		out = append(out, a.AssociatedData.CommandGrantData.Cmd)
+	}
+	return out
+}
